@@ -236,9 +236,13 @@ def processEdge (nodes : Nodes) (preKey postKey : String) : Nodes × Option PyEr
             let spatial ← shapeTail po
             let out ← calculateConvOutput spatial ((post2.field? "padding").getD .none) (.int 1)
               ((post2.field? "kernel_size").getD .none) ((post2.field? "stride").getD .none)
-            let c ← shapeIndex (← getItem post2.inputType "input") 0
-            let c ← match Val.asInt? c with | some c => pure c | Option.none => throw unmodelled
-            pure (post2.setOutputType (typeDict "output" (shapeArray (c :: out))))
+            let cv ← shapeIndex (← getItem post2.inputType "input") 0
+            let c ← match Val.asInt? cv with | some c => pure c | Option.none => throw unmodelled
+            -- `np.array([c, *out])`: a lone numpy integer keeps its own dtype
+            let arr := match out, cv with
+              | [], .npscalar dt d => Val.arr dt [1] d
+              | _, _ => shapeArray (c :: out)
+            pure (post2.setOutputType (typeDict "output" arr))
           match r with
           | .ok post4 => (setNode nodes postKey post4, Option.none)
           | .error e => (setNode nodes postKey post2, some e)
